@@ -3,6 +3,7 @@ package main
 import (
 	"context"
 	"fmt"
+	"math/rand/v2"
 	"reflect"
 	"strings"
 	"time"
@@ -78,10 +79,15 @@ func (r *Run) lifecycleShutdown() {
 	case "done":
 		r.clients++
 		s.Spawn("shutdown", func() {
-			// Done again on every watcher, whether or not its own program
-			// already called it: an earlier Done whose context had ended may
-			// have been dropped, and calling Done twice is allowed
-			for _, st := range r.srcs {
+			// Done for every watcher whose own Done is not known to have been
+			// delivered (a Done whose context had ended may have been dropped),
+			// in an order drawn from the run seed: watchers may finish in any order
+			order := rand.New(rand.NewPCG(r.sc.Seed, 0xd0e)).Perm(len(r.srcs))
+			for _, i := range order {
+				st := r.srcs[i]
+				if st.doneAt != 0 {
+					continue
+				}
 				ctx, cancel := context.WithTimeout(context.Background(), time.Hour)
 				switch {
 				case st.blank != nil:
